@@ -166,6 +166,15 @@ theories/Transcode/Mediator.vos theories/Transcode/Mediator.vok theories/Transco
 theories/Transcode/Mediator_proofs.vo theories/Transcode/Mediator_proofs.glob theories/Transcode/Mediator_proofs.v.beautified theories/Transcode/Mediator_proofs.required_vo: theories/Transcode/Mediator_proofs.v theories/Base/Prelude.vo theories/Transcode/Mediator.vo
 theories/Transcode/Mediator_proofs.vio: theories/Transcode/Mediator_proofs.v theories/Base/Prelude.vio theories/Transcode/Mediator.vio
 theories/Transcode/Mediator_proofs.vos theories/Transcode/Mediator_proofs.vok theories/Transcode/Mediator_proofs.required_vos: theories/Transcode/Mediator_proofs.v theories/Base/Prelude.vos theories/Transcode/Mediator.vos
+theories/Miner/Reason.vo theories/Miner/Reason.glob theories/Miner/Reason.v.beautified theories/Miner/Reason.required_vo: theories/Miner/Reason.v theories/Base/Prelude.vo
+theories/Miner/Reason.vio: theories/Miner/Reason.v theories/Base/Prelude.vio
+theories/Miner/Reason.vos theories/Miner/Reason.vok theories/Miner/Reason.required_vos: theories/Miner/Reason.v theories/Base/Prelude.vos
+theories/Miner/Reason_proofs.vo theories/Miner/Reason_proofs.glob theories/Miner/Reason_proofs.v.beautified theories/Miner/Reason_proofs.required_vo: theories/Miner/Reason_proofs.v theories/Base/Prelude.vo theories/Miner/Reason.vo
+theories/Miner/Reason_proofs.vio: theories/Miner/Reason_proofs.v theories/Base/Prelude.vio theories/Miner/Reason.vio
+theories/Miner/Reason_proofs.vos theories/Miner/Reason_proofs.vok theories/Miner/Reason_proofs.required_vos: theories/Miner/Reason_proofs.v theories/Base/Prelude.vos theories/Miner/Reason.vos
+theories/Generated/C20_gen.vo theories/Generated/C20_gen.glob theories/Generated/C20_gen.v.beautified theories/Generated/C20_gen.required_vo: theories/Generated/C20_gen.v theories/Base/Prelude.vo
+theories/Generated/C20_gen.vio: theories/Generated/C20_gen.v theories/Base/Prelude.vio
+theories/Generated/C20_gen.vos theories/Generated/C20_gen.vok theories/Generated/C20_gen.required_vos: theories/Generated/C20_gen.v theories/Base/Prelude.vos
 theories/Props/C01.vo theories/Props/C01.glob theories/Props/C01.v.beautified theories/Props/C01.required_vo: theories/Props/C01.v theories/Base/Prelude.vo theories/Base/Bytes.vo theories/Event/Hash.vo theories/Event/Hash_proofs.vo theories/Generated/C01_gen.vo
 theories/Props/C01.vio: theories/Props/C01.v theories/Base/Prelude.vio theories/Base/Bytes.vio theories/Event/Hash.vio theories/Event/Hash_proofs.vio theories/Generated/C01_gen.vio
 theories/Props/C01.vos theories/Props/C01.vok theories/Props/C01.required_vos: theories/Props/C01.v theories/Base/Prelude.vos theories/Base/Bytes.vos theories/Event/Hash.vos theories/Event/Hash_proofs.vos theories/Generated/C01_gen.vos
@@ -250,3 +259,6 @@ theories/Props/C18.vos theories/Props/C18.vok theories/Props/C18.required_vos: t
 theories/Props/C19.vo theories/Props/C19.glob theories/Props/C19.v.beautified theories/Props/C19.required_vo: theories/Props/C19.v theories/Base/Prelude.vo theories/Parse/Tree.vo theories/Parse/Tree_proofs.vo
 theories/Props/C19.vio: theories/Props/C19.v theories/Base/Prelude.vio theories/Parse/Tree.vio theories/Parse/Tree_proofs.vio
 theories/Props/C19.vos theories/Props/C19.vok theories/Props/C19.required_vos: theories/Props/C19.v theories/Base/Prelude.vos theories/Parse/Tree.vos theories/Parse/Tree_proofs.vos
+theories/Props/C20.vo theories/Props/C20.glob theories/Props/C20.v.beautified theories/Props/C20.required_vo: theories/Props/C20.v theories/Base/Prelude.vo theories/Miner/Reason.vo theories/Miner/Reason_proofs.vo theories/Generated/C20_gen.vo
+theories/Props/C20.vio: theories/Props/C20.v theories/Base/Prelude.vio theories/Miner/Reason.vio theories/Miner/Reason_proofs.vio theories/Generated/C20_gen.vio
+theories/Props/C20.vos theories/Props/C20.vok theories/Props/C20.required_vos: theories/Props/C20.v theories/Base/Prelude.vos theories/Miner/Reason.vos theories/Miner/Reason_proofs.vos theories/Generated/C20_gen.vos
